@@ -5,6 +5,9 @@ pub mod comp;
 pub mod gen;
 pub mod guard;
 pub mod mon;
+pub mod mvtsrc;
+pub mod pipe;
 pub mod report;
 pub mod rng;
 pub mod shard;
+pub mod sources;
